@@ -97,6 +97,17 @@ def run(prog, tier):
         ret = last_return(gfn)
         ok = (ret is not None and isinstance(ret.value, ast.BinOp) and isinstance(ret.value.op, ast.MatMult)
               and isinstance(ret.value.right, ast.Name) and ret.value.right.id == gfn.args.args[2].arg)
+        # ... the Jacobian the caller's model returned, as returned: the parameter is not re-bound or written into on the way
+        jn_ = gfn.args.args[2].arg
+        for st_ in ast.walk(gfn):
+            tg_ = st_.targets if isinstance(st_, ast.Assign) else [st_.target] if isinstance(st_, (ast.AugAssign, ast.AnnAssign)) else []
+            for t_ in tg_:
+                for el_ in (t_.elts if isinstance(t_, ast.Tuple) else [t_]):
+                    b_ = el_
+                    while isinstance(b_, ast.Subscript):
+                        b_ = b_.value
+                    if isinstance(b_, ast.Name) and b_.id == jn_:
+                        ok = False
         obs.append(struct_ob("jacobian-contraction", qual(c, gfn), ok,
                              "the gradient must be (dL/dF) @ predictions_jacobian", REL, gfn.lineno,
                              slots={"return": U(ret.value) if ret else None}))
